@@ -69,6 +69,11 @@ def build_case(seed_cid):
         sdecl = "\n".join("    $%s = %s" % (i, m_cond.qstr(p)) for i, p in zip(ids, pats))
         src.append("rule r%d {\n  strings:\n%s\n  condition:\n    %s\n}" % (k, sdecl, text))
     text = "\n".join(src) + "\n"
+    # optionally, an earlier namespace holding rules with the same names/prefix but other truth values
+    other_ns = None
+    if rng.random() < 0.35:
+        names = ["r%d" % j for j in rng.sample(range(0, 9), rng.randint(1, 4))]
+        other_ns = "\n".join("rule %s { condition: %s }" % (nm, rng.choice(["true", "false"])) for nm in sorted(names)) + "\n"
     expected = []
     for b in bufs:
         matches = {i: m_cond.all_matches(b, p) for i, p in zip(ids, pats)}
@@ -96,12 +101,14 @@ def build_case(seed_cid):
             lines.append("cdef 0 b %s %d" % (hx(nm), 1 if v else 0))
         else:
             lines.append("cdef 0 i %s %d" % (hx(nm), v))
+    if other_ns is not None:
+        lines.append("cadd 0 %s %s" % (hx("alpha"), hx(other_ns)))
     lines += ["cadd 0 - " + hx(text), "crules 0 0"]
     for j, b in enumerate(bufs):
         lines.append("buf %d %s" % (j, hx(b)))
         lines.append("scan r0 mem %d 0 0 -" % j)
     int_body = [any_int_loop_body(c) for c, _t in rules]
-    meta = dict(src=text, bufs=bufs, expected=expected, conds=[t for _c, t in rules], skel=[skeleton(c) for c, _t in rules],
+    meta = dict(other_ns=other_ns, src=text, bufs=bufs, expected=expected, conds=[t for _c, t in rules], skel=[skeleton(c) for c, _t in rules],
                 stats=stats, int_body=int_body, ext={k: (t, v if not isinstance(v, bytes) else v.hex()) for k, (t, v) in ext.items()})
     return Case(cid, lines, meta)
 
@@ -120,7 +127,8 @@ def any_int_loop_body(n):
 
 def evaluate(chk, case, res, stats):
     m = case.meta
-    wit_base = {"rule_source": m["src"], "externals": m["ext"], "script": case.script()}
+    wit_base = {"rule_source": m["src"], "namespace_alpha_source": m.get("other_ns"), "externals": m["ext"],
+                "script": case.script()}
     if res.status != "ok":
         if res.status.startswith("flaky") or res.status in ("missing", "harness"):
             chk.inconc("%s: %s" % (case.cid, res.status))
@@ -133,7 +141,7 @@ def evaluate(chk, case, res, stats):
     crules = res.ops("crules")
     for kk, vv in m["stats"].items():
         stats["ops"][kk] = stats["ops"].get(kk, 0) + vv
-    if not cadd or cadd[0]["errors"] != 0 or not crules or crules[0]["rc"] != 0:
+    if not cadd or any(c["errors"] != 0 for c in cadd) or not crules or crules[0]["rc"] != 0:
         stats["rejected"] += 1
         msgs = [mm[3] for mm in (cadd[0]["msgs"] if cadd else []) if mm[0] == 0]
         chk.violation("well-typed-condition-rejected:" + (msgs[0][:40] if msgs else "?"), dict(wit_base, compile=cadd))
